@@ -611,6 +611,19 @@ def check_dbus_consistency(obs, final_idle_expected):
                 if bid in seen:
                     out.append(('finished-once', name + '-finished-twice', '%s emitted %s_bundle_finished twice for %s' % (side, name, bid)))
                 seen.add(bid)
+        # ... and exactly once when the session ended gracefully: both SESS_TERM on the wire, nothing cut the connection, nobody gave up
+        plan = har.plan
+        graceful = (not plan.get('faults') and not any(op['op'] in ('close', 'stop') for op in plan.get('ops', ()))
+                    and not any(plan['cfg'][name].get('idle_time') for name in ('A', 'P'))
+                    and all(any(msg['kind'] == 'SESS_TERM' for msg in obs.wire[name]) for name in ('A', 'P'))
+                    and closed_seq is not None and not har.hang and not obs.wld.capped)
+        if graceful:
+            fin_ids = [bid for (_seq, bid) in tx_fin]
+            for (_seq, tid) in tx_start:
+                if fin_ids.count(tid) != 1:
+                    out.append(('finished-once', 'send-finished-%d-times-at-graceful-end' % fin_ids.count(tid),
+                                '%s started transfer %s, the session ended gracefully, and send_bundle_finished was emitted %d times for it' % (side, tid, fin_ids.count(tid))))
+                    break
         progress = rx_progress(obs, side)
         peer_msgs = obs.wire[peer]
         popped_at = {}
